@@ -24,13 +24,14 @@ def run(seed_dir, props=ALL):
 
 if __name__ == "__main__":
     ap = argparse.ArgumentParser(); ap.add_argument("--dir", default=os.path.join(VERIF, "seeded")); ap.add_argument("--only"); ap.add_argument("--all-props", action="store_true")
+    ap.add_argument("--jobs", type=int, default=4, help="seeds evaluated at the same time (each runs its 20 checks in parallel)")
     a = ap.parse_args()
     rows = []
-    for d in sorted(os.listdir(a.dir)):
-        sd = os.path.join(a.dir, d)
-        if not os.path.isfile(os.path.join(sd, "patch.diff")) or (a.only and a.only not in d):
-            continue
-        res = run(sd)
+    todo = [d for d in sorted(os.listdir(a.dir)) if os.path.isfile(os.path.join(a.dir, d, "patch.diff")) and not (a.only and a.only not in d)]
+    from concurrent.futures import ThreadPoolExecutor as _TP
+    with _TP(max(1, a.jobs)) as pool:
+        results = list(zip(todo, pool.map(lambda d: run(os.path.join(a.dir, d)), todo)))
+    for d, res in results:
         if "error" in res:
             print(f"{d}: {res['error']}"); continue
         fired = [p for p, r in res.items() if r["rc"] == 1]
